@@ -53,18 +53,43 @@ def _sync_src(dst, repo=REPO):
                            repo + '/', dst + '/'])
 
 
+def _expire(d, match, max_age_s=4 * 3600, keep=6):
+    """Removes cached artefacts of other source trees: only entries not used for max_age_s (a concurrent check of
+    another tree may still be reading a younger one), and at most `keep` entries are left."""
+    now = time.time()
+    ents = sorted(((os.path.getmtime(os.path.join(d, f)), f) for f in os.listdir(d) if match(f)), reverse=True)
+    for i, (mt, f) in enumerate(ents):
+        if now - mt > max_age_s or i >= keep:
+            try:
+                os.remove(os.path.join(d, f))
+            except OSError:
+                pass
+
+
+def _sweep_scratch():
+    """stale per-process scratch directories of killed native runs"""
+    now = time.time()
+    try:
+        for f in os.listdir(SCRATCH):
+            p = os.path.join(SCRATCH, f)
+            if (f.startswith(('loader-', 'bpe-', 'dict-')) or f.endswith('.smt2')) and now - os.path.getmtime(p) > 3600:
+                shutil.rmtree(p, ignore_errors=True) if os.path.isdir(p) else os.remove(p)
+    except OSError:
+        pass
+
+
 def mir_dump(repo=REPO, log=None):
     """Returns (path of MIR dump, seconds).  Cached per source-tree hash."""
     th = tree_hash(repo)
+    _sweep_scratch()
     out = os.path.join(SCRATCH, 'mir', 'crate-%s-v2.mir' % th)
     with Lock('mir'):
         if os.path.exists(out) and os.path.getsize(out) > 1000:
+            os.utime(out, None)
             return out, 0.0
         t0 = time.time()
         os.makedirs(os.path.dirname(out), exist_ok=True)
-        for old in os.listdir(os.path.dirname(out)):
-            if old.startswith('crate-') and old.endswith('.mir'):
-                os.remove(os.path.join(os.path.dirname(out), old))
+        _expire(os.path.dirname(out), lambda f: f.startswith('crate-') and f.endswith('.mir'))
         src = os.path.join(SCRATCH, 'mir', 'src-copy')
         _sync_src(src, repo)
         lib = os.path.join(src, 'src', 'lib.rs')
@@ -97,12 +122,11 @@ def replay_binary(profile='dev', repo=REPO):
     out = os.path.join(bdir, 'verif-replay-' + key)
     with Lock('replay-' + profile):
         if os.path.exists(out):
+            os.utime(out, None)
             return out, 0.0
         t0 = time.time()
         os.makedirs(bdir, exist_ok=True)
-        for old in os.listdir(bdir):
-            if old.endswith('-' + profile):
-                os.remove(os.path.join(bdir, old))
+        _expire(bdir, lambda f: f.endswith('-' + profile))
         # build from a copy of the harness crate whose path dependency points at the tree under test
         crate = os.path.join(SCRATCH, 'replay-crate-' + profile)
         shutil.rmtree(crate, ignore_errors=True)
